@@ -210,6 +210,15 @@ def gen_subtotal_case(rng, k):
         if v.kind == "cat":
             v.view_insertions = gen.random_insertions(rng, v, max_n=2, differences=False,
                                                       stale=False)
+            if k % 3 == 0:
+                # an addend id named twice (two overlapping boxes concatenated): still one category
+                for d in v.view_insertions:
+                    lst = d.get("args") if "args" in d else d.get("kwargs", {}).get("positive")
+                    if lst:
+                        lst.append(lst[0])
+                        if "args" in d and "kwargs" in d and d["kwargs"].get("positive") is not None \
+                                and d["kwargs"]["positive"] is not lst:
+                            d["kwargs"]["positive"].append(d["kwargs"]["positive"][0])
     sv = gen.Survey(vs, rng.choice([3, 8, 15, 25]), rng)
     case = {"k": k, "shape_class": "subtotals", "survey": cu.survey_to_json(sv),
             "aliases": [v.alias for v in vs], "perm": None, "measures": ["count"], "numvar": None,
@@ -242,6 +251,11 @@ def run_subtotal_case(case):
             fails.append({"what": "subtotal-introspection", "impl": info[1:], "no_impl": True})
             continue
         (nr, nrs, nc, ncs), rsubs, csubs, ro, co = info[1]
+        # a subtotal is the UNION of its addend categories: a category named twice in the insertion counts
+        # once (seeded change C02-8: the index resolution yielded one offset per listed id, so a repeated
+        # id was added twice) - the oracle therefore works on the SET of positions the library resolved
+        rsubs = [(sorted(set(a)), sorted(set(b))) for a, b in rsubs]
+        csubs = [(sorted(set(a)), sorted(set(b))) for a, b in csubs]
         n_sub += nrs + ncs
         if nrs + ncs == 0:
             continue
